@@ -66,6 +66,7 @@ theorem splitsThrough_wrap {t : List Tok} (h : SplitsThrough 0 t) (b : Bool) : S
 theorem splitsThrough_toks (f : Formula) : SplitsThrough 0 (toks f) := by
   induction f with
   | lit v => exact splitsThrough_atom 0 v
+  | sc dq items => exact splitsThrough_atom 0 _
   | un u e ih =>
     simp only [toks]
     exact (splitsThrough_op 0 _).append (splitsThrough_wrap ih _)
@@ -288,6 +289,12 @@ theorem evalToks_toks (f : Formula) :
     ∀ n, 2 * Formula.size f ≤ n → evalToks M n (toks f) = evalWith (semOf M) f := by
   induction f with
   | lit v =>
+    intro n hn
+    simp only [Formula.size] at hn
+    match n, hn with
+    | 0, h => omega
+    | k + 1, _ => rfl
+  | sc dq items =>
     intro n hn
     simp only [Formula.size] at hn
     match n, hn with
